@@ -20,6 +20,7 @@ package explore
 import (
 	"context"
 	"fmt"
+	"sort"
 
 	"tkestack.io/kvass/pkg/discovery"
 	"tkestack.io/kvass/pkg/prom"
@@ -27,6 +28,7 @@ import (
 	"tkestack.io/kvass/pkg/utils/types"
 
 	"sync"
+	"sync/atomic"
 	"time"
 
 	parser "github.com/VictoriaMetrics/VictoriaMetrics/lib/protoparser/prometheus"
@@ -49,9 +51,19 @@ var (
 
 type exploringTarget struct {
 	exploring bool
-	job       string
-	target    *target.Target
-	rt        *target.ScrapeStatus
+	// job is the job this target is explored with, one of jobs. It may be exchanged while a probe is on its way
+	// (probes run without targetsLock, which is held while targets are queued), so it is only read and written whole
+	job atomic.Value
+	// jobs are all jobs the target was discovered for in the last update,
+	// two jobs may discover the same target (same labels and url, same hash)
+	jobs   []string
+	target *target.Target
+	rt     *target.ScrapeStatus
+}
+
+func (t *exploringTarget) jobName() string {
+	job, _ := t.job.Load().(string)
+	return job
 }
 
 // Explore will explore Target before it assigned to Shard
@@ -114,11 +126,23 @@ func (e *Explore) ApplyConfig(cfg *prom.ConfigInfo) error {
 	newTargets := map[uint64]*exploringTarget{}
 	deletedJobs := map[string]struct{}{}
 	for hash, v := range e.targets {
-		if types.FindString(v.job, jobs...) {
+		// the target stays as long as one of the jobs it was discovered for is still configured
+		left := make([]string, 0, len(v.jobs))
+		for _, j := range v.jobs {
+			if types.FindString(j, jobs...) {
+				left = append(left, j)
+			}
+		}
+		if types.FindString(v.jobName(), jobs...) {
+			newTargets[hash] = v
+		} else if len(left) != 0 {
+			deletedJobs[v.jobName()] = struct{}{}
+			v.job.Store(left[0])
 			newTargets[hash] = v
 		} else {
-			deletedJobs[v.job] = struct{}{}
+			deletedJobs[v.jobName()] = struct{}{}
 		}
+		v.jobs = left
 	}
 
 	for job := range deletedJobs {
@@ -137,18 +161,28 @@ func (e *Explore) UpdateTargets(targets map[string][]*discovery.SDTargets) {
 	defer e.targetsLock.Unlock()
 
 	all := map[uint64]*exploringTarget{}
+	jobsOf := map[uint64][]string{}
 	for job, ts := range targets {
 		for _, t := range ts {
 			hash := t.ShardTarget.Hash
+			jobsOf[hash] = append(jobsOf[hash], job)
 			if e.targets[hash] != nil {
 				all[hash] = e.targets[hash]
-			} else {
+			} else if all[hash] == nil {
 				all[hash] = &exploringTarget{
-					job:    job,
 					rt:     target.NewScrapeStatus(0, 0),
 					target: t.ShardTarget,
 				}
+				all[hash].job.Store(job)
 			}
+		}
+	}
+	for hash, t := range all {
+		// the job the target was first seen in may not be among the jobs it is discovered for now
+		sort.Strings(jobsOf[hash])
+		t.jobs = jobsOf[hash]
+		if !types.FindString(t.jobName(), t.jobs...) {
+			t.job.Store(t.jobs[0])
 		}
 	}
 	e.targets = all
@@ -198,21 +232,23 @@ func (e *Explore) exploreOnce(ctx context.Context, t *exploringTarget) (err erro
 	defer func() {
 		t.rt.SetScrapeErr(start, err)
 	}()
-	exploringTotal.WithLabelValues(t.job).Inc()
+	job := t.jobName()
+
+	exploringTotal.WithLabelValues(job).Inc()
 	defer func() {
-		exploringTotal.WithLabelValues(t.job).Dec()
-		exploredTotal.WithLabelValues(t.job, fmt.Sprint(err == nil)).Inc()
+		exploringTotal.WithLabelValues(job).Dec()
+		exploredTotal.WithLabelValues(job, fmt.Sprint(err == nil)).Inc()
 	}()
 
-	info := e.scrapeManager.GetJob(t.job)
+	info := e.scrapeManager.GetJob(job)
 	if info == nil {
-		return fmt.Errorf("can not found %s  scrape info", t.job)
+		return fmt.Errorf("can not found %s  scrape info", job)
 	}
 
 	url := t.target.URL(info.Config).String()
 	result, err := e.explore(e.logger, info, url)
 	if err != nil {
-		return errors.Wrapf(err, "explore failed : %s/%s", t.job, url)
+		return errors.Wrapf(err, "explore failed : %s/%s", job, url)
 	}
 
 	t.rt.UpdateScrapeResult(result)
